@@ -64,8 +64,13 @@ type record struct {
 func NewRecord(recType RecordType, from, to sha.SHA1, name, email string, t time.Time, message string) *record {
 	unixtime := fmt.Sprint(t.Unix())
 	_, offset := t.Zone()
+	// sign, hours and minutes of the magnitude: -9:30 is "-0930" (the minutes of a negative offset carry no sign of their own)
+	sign := "+"
+	if offset < 0 {
+		sign, offset = "-", -offset
+	}
 	offsetMinutes := offset / 60
-	timeDiff := fmt.Sprintf("%+03d%02d", offsetMinutes/60, offsetMinutes%60)
+	timeDiff := fmt.Sprintf("%s%02d%02d", sign, offsetMinutes/60, offsetMinutes%60)
 
 	return &record{
 		recType:  recType,
